@@ -171,6 +171,9 @@ func FromVal(g gen.Val, pos *int) *V {
 	return v
 }
 
+// CanonLimit bounds the canonical rendering (same constant in vcommon.Canon).
+const CanonLimit = 200000
+
 func floatCanon(f float64) string {
 	if math.IsNaN(f) {
 		return "NaN"
@@ -207,6 +210,12 @@ func canon(b *strings.Builder, v *V, depth int, seen map[*Map]bool) {
 	}
 	if depth > 200 {
 		b.WriteString("#deep")
+		return
+	}
+	if b.Len() > CanonLimit {
+		// values with heavy sharing print exponentially; both Canon
+		// implementations cut at the same point
+		b.WriteString("#trunc")
 		return
 	}
 	switch v.T {
